@@ -283,7 +283,8 @@ class Gen:
                       self.chance('p_catch')]
                 if self.chance('p_spelling'):
                     st.append(rng.choice(
-                        ['bytes', 'pathlike', 'redundant', 'dotdot']))
+                        ['bytes', 'pathlike', 'redundant', 'dotdot', 'rel',
+                         'rel', 'cwdname', 'cwdname']))
                 elif cmp == 'METADATA' and self.chance('p_plain_bf'):  # noqa
                     st.append('plain')      # FileBuilder.build_file
                 body.append(st)
@@ -626,8 +627,11 @@ class Gen:
                 if self.chance('p_double_clean'):
                     steps.append({'op': 'clean'})
             elif i > 0 and self.chance('p_chdir_step'):
+                # (cw1, cw2/in: directories holding a foreign file "keep",
+                # which no build ever removes - see the cwdname spelling)
                 steps.append({'op': 'chdir', 'rel': rng.choice(
-                    [''] + [a for u in U for a in ancestors(u)])})
+                    ['', 'cw1', 'cw2/in', 'cw1', 'cw2/in'] +
+                    [a for u in U for a in ancestors(u)])})
             elif i > 0 and self.chance('p_refuse_step'):
                 steps.append({'op': 'refuse',
                               'how': rng.choice(REFUSALS),
@@ -685,7 +689,9 @@ class Gen:
             },
             'universe': U,
             'groups': groups,
-            'init': self.gen_init(U),
+            'init': self.gen_init(U) + (
+                [['write', 'cw1/keep', 'k'], ['write', 'cw2/in/keep', 'k']]
+                if self.p['p_chdir_step'] > 0 else []),
             'funcs': funcs,
             'roots': roots,
             'steps': self.gen_steps(funcs, roots, groups, U),
